@@ -11,6 +11,7 @@ package main
 
 import (
 	"encoding/base64"
+	"math"
 	"math/big"
 	"strings"
 )
@@ -80,17 +81,17 @@ func spliceMutants(orig []byte) [][]byte {
 }
 
 // tree mutants of a canonical graph, re-encoded with the real encoder
-func treeMutants(orig []byte) [][]byte {
+func treeMutants(orig []byte) (out [][]byte, equalish [][]byte) {
 	out0, x := goDecode(orig, "h") // structure preserving: host objects stay (module, name, args)
 	if !strings.HasPrefix(out0, "ok ") {
-		return nil
+		return nil, nil
 	}
 	g0, err := safeDump(x, dumpLimit)
 	if err != nil {
-		return nil
+		return nil, nil
 	}
 	text := g0.String()
-	var out [][]byte
+	same := false // the mutant under construction should be Starlark-equal to the original
 	emit := func(mut func(g *graph) bool) {
 		g, err := parseGraph(text) // a fresh copy
 		if err != nil || !mut(g) {
@@ -101,7 +102,11 @@ func treeMutants(orig []byte) [][]byte {
 			return
 		}
 		if bs, _ := goEncode(y, true); bs != nil {
-			out = append(out, bs)
+			if same {
+				equalish = append(equalish, bs)
+			} else {
+				out = append(out, bs)
+			}
 		}
 	}
 	repl := func(g *graph, k int) val {
@@ -158,7 +163,22 @@ func treeMutants(orig []byte) [][]byte {
 				g.heap[a].xs = append(append(append([]val{}, xs[:j+step]...), xs[j:j+step]...), xs[j+step:]...)
 				return true
 			})
+			if v := o.xs[j+step-1]; v.k == 'i' && v.i.IsInt64() && v.i.Int64() > -1<<50 && v.i.Int64() < 1<<50 {
+				same = true
+				emit(func(g *graph) bool { // 1 recorded as 1.0: an equal environment, a different encoding
+					g.heap[a].xs[j+step-1] = vf(math.Float64bits(float64(v.i.Int64())))
+					return true
+				})
+				same = false
+			} else if v.k == 'f' {
+				if f := math.Float64frombits(v.f); f == math.Trunc(f) && math.Abs(f) < 1e15 {
+					same = true
+					emit(func(g *graph) bool { g.heap[a].xs[j+step-1] = vi(int64(f)); return true })
+					same = false
+				}
+			}
 			if j+2*step <= len(o.xs) {
+				same = o.k == 'D' // a dict with its entries in another order is an equal dict
 				emit(func(g *graph) bool { // swapped with the next one
 					xs := g.heap[a].xs
 					for t := 0; t < step; t++ {
@@ -166,6 +186,7 @@ func treeMutants(orig []byte) [][]byte {
 					}
 					return true
 				})
+				same = false
 			}
 			if o.xs[j].k == 's' { // a key (of a dict, or of an association-list pair) renamed
 				emit(func(g *graph) bool { g.heap[a].xs[j] = vs("zzz"); return true })
@@ -182,6 +203,64 @@ func treeMutants(orig []byte) [][]byte {
 	}
 	emit(func(g *graph) bool { g.root = g.add(obj{k: 'T', xs: []val{g.root}}); return true })
 	emit(func(g *graph) bool { g.root = g.add(obj{k: 'L', xs: []val{g.root, g.root}}); return true })
+	return out, equalish
+}
+
+// the same value tree written with other opcodes: every op that has a longer form rewritten to it (all at once, and one at
+// a time): SHORT_BINUNICODE -> BINUNICODE, SHORT_BINBYTES -> BINBYTES, BINGET -> LONG_BINGET, BININT1 / BININT2 -> BININT and INT
+func longFormMutants(orig []byte) [][]byte {
+	bounds := opBoundaries(orig)
+	long := func(i int) []byte { // the op starting at bounds[i] in its long form, or nil
+		b := bounds[i]
+		switch orig[b] {
+		case 0x8c, 'C':
+			op := byte('X')
+			if orig[b] == 'C' {
+				op = 'B'
+			}
+			n := int(orig[b+1])
+			return append(append([]byte{op}, le32(n)...), orig[b+2:b+2+n]...)
+		case 'h':
+			return append([]byte{'j'}, le32(int(orig[b+1]))...)
+		case 'K':
+			return append([]byte{'J'}, le32(int(orig[b+1]))...)
+		case 'M':
+			return append([]byte{'J'}, le32(int(orig[b+1])|int(orig[b+2])<<8)...)
+		}
+		return nil
+	}
+	end := func(i int) int {
+		if i+1 < len(bounds) {
+			return bounds[i+1]
+		}
+		return len(orig)
+	}
+	var out [][]byte
+	var all []byte
+	for i := range bounds {
+		if end(i) > len(orig) {
+			return out
+		}
+		l := long(i)
+		if l == nil {
+			all = append(all, orig[bounds[i]:end(i)]...)
+			continue
+		}
+		all = append(all, l...)
+		out = append(out, append(append(append([]byte{}, orig[:bounds[i]]...), l...), orig[end(i):]...))
+		if orig[bounds[i]] == 'K' { // and as decimal text
+			t := append([]byte{'I'}, []byte(big.NewInt(int64(orig[bounds[i]+1])).String())...)
+			out = append(out, append(append(append([]byte{}, orig[:bounds[i]]...), append(t, '\n')...), orig[end(i):]...))
+		}
+	}
+	return append(out, all)
+}
+
+func deletionMutants(orig []byte) [][]byte {
+	var out [][]byte
+	for p := range orig {
+		out = append(out, append(append([]byte{}, orig[:p]...), orig[p+1:]...))
+	}
 	return out
 }
 
@@ -198,7 +277,7 @@ func structureCases(r *rng, orig []byte, origDump string, tier string) []recCase
 		stats["rec.structure."+kind+".decodes-"+cls]++
 		c := recCase{kind: kind, raw: m, stamp: base64.StdEncoding.EncodeToString(m)}
 		switch {
-		case cls == "ok" && d != origDump:
+		case cls == "ok" && (d != origDump || priority): // (a priority mutant that decodes to the SAME dump: same value, other bytes)
 			if priority {
 				first = append(first, c)
 			} else {
@@ -213,8 +292,19 @@ func structureCases(r *rng, orig []byte, origDump string, tier string) []recCase
 	for i, m := range sp {
 		consider(m, "splice", i >= len(sp)-tail)
 	}
-	for _, m := range treeMutants(orig) {
+	tm, equalish := treeMutants(orig)
+	for _, m := range tm {
 		consider(m, "tree", false)
+	}
+	// the same environment in another encoding (or one that Starlark compares equal): every one that still decodes
+	for _, m := range equalish {
+		consider(m, "reencoded-equal", true)
+	}
+	for _, m := range longFormMutants(orig) {
+		consider(m, "reencoded-long", true)
+	}
+	for _, m := range deletionMutants(orig) { // e.g. a lost MEMOIZE of a value that is never fetched again
+		consider(m, "byte-deleted", true)
 	}
 	limit := 90
 	if tier == "thorough" {
